@@ -23,6 +23,13 @@ CHECKS = {
         "permutation), trace and einsum and compared element for element - plus charge, directions and remaining labels - with the word-model reference in mc/ref_graded.py. "
         "This covers exhaustively the clause 'all small index structures' of the quantifier; the 'randomly beyond' clause is sampling and is not claimed.",
    note="Trusted: the word model as specification of graded semantics ((bra,ket) adjacency = +1, (ket,bra) = -1; labels left of the axes); numpy; integer tags."),
+ "C05": dict(engine="E-enum", design_ref="DESIGN.md 5 C05, 4.4",
+   technique="exhaustive enumeration of arrays x ordered disjoint axis groupings x strategies x cache settings on the real fuse / unfuse; reference = layout rebuilt by the harness from the fused index's own sub-index table, exact integer tags",
+   text="Every array of the bounded universe (abelian and fermionic, n<=4, every sparsity pattern on the small tiers) is fused by the real code for every sequence of "
+        "disjoint ordered axis groups (single-axis, non-adjacent, permuted, nested on an already fused axis), with strategies insert and concat and the fuse cache on and off. "
+        "The fused index's own table is audited (signed combination, extent sizes, direction of the first axis, sub-indices) and the fused blocks must equal, element for "
+        "element, the layout that table prescribes; both strategies / cache settings must agree exactly; unfusing must restore every block bit for bit (fermionic: the R-graded transpose).",
+   note="Trusted: numpy transpose/reshape on tagged blocks; the R-graded transpose for the fermionic round trip. Fermionic concat strategy is not reachable through the public fuse and is not covered."),
 }
 
 _ALL = ["C%02d" % i for i in range(1, 21)]
